@@ -102,6 +102,14 @@ class FnTranslator:
                     self.fail(node, "only einsum('ij,ij->i', a, b) is modelled")
                 return f"np_einsum_ij_ij_i K {self.atom(node.args[1])} {self.atom(node.args[2])}"
             self.fail(node, "unsupported call")
+        if isinstance(node, ast.Subscript):
+            # only a[:, None] (a new trailing axis on a 1-D array)
+            sl = node.slice
+            if (isinstance(sl, ast.Tuple) and len(sl.elts) == 2 and isinstance(sl.elts[0], ast.Slice)
+                    and sl.elts[0].lower is None and sl.elts[0].upper is None and sl.elts[0].step is None
+                    and isinstance(sl.elts[1], ast.Constant) and sl.elts[1].value is None):
+                return f"np_col K {self.atom(node.value)}"
+            self.fail(node, "only the subscript [:, None] is modelled")
         if isinstance(node, (ast.Name, ast.Constant, ast.Attribute)):
             return f"Ok {self.atom(node)}"
         self.fail(node, "unsupported expression")
